@@ -245,6 +245,27 @@ def run_string(shard, rec):
                 continue
             rec.case((v, tuple(defs), text, ap), nontrivial=bool(lists[0]))
             check_lists(lists[0], lists[1], rec, case)
+            # one object validated again and again (warnings on, off, on): each run's issues are well-formed by
+            # themselves and the first run's issues are not changed by the later runs
+            try:
+                hs = HedString(text, schema, dd)
+                runs = []
+                for warn in (True, False, True):
+                    eh = ErrorHandler(check_for_warnings=warn)
+                    eh.push_error_context(ErrorContext.ROW, 7)
+                    eh.push_error_context(ErrorContext.HED_STRING, hs)
+                    runs.append(hs.validate(allow_placeholders=ap, error_handler=eh))
+                    if len(runs) == 1:
+                        first_msgs = [(i["code"], i["message"]) for i in runs[0]]
+                rec.mon("same-object-revalidated")
+                check_lists(runs[2], runs[1], rec, dict(case, revalidated=True))
+                if [(i["code"], i["message"]) for i in runs[0]] != first_msgs:
+                    rec.violation("validating an object again changed the issues returned by an earlier run",
+                                  dict(case, revalidated=True))
+                if [(i["code"], i["message"]) for i in runs[2]] != first_msgs:
+                    rec.violation("validating the same object again returns different issues", dict(case, revalidated=True))
+            except Exception as ex:  # noqa
+                rec.violation(f"validating one object repeatedly raised {type(ex).__name__}", dict(case, revalidated=True))
             if rng.random() < 0.002:
                 rec.sample(dict(case, codes=[i["code"] for i in lists[0]]))
 
